@@ -34,6 +34,6 @@ Code the property is anchored in: {', '.join(p['anchors']['files'])}
 {extra}
 ## Deliverables (in `/tmp/seed/{pid}-out/`)
 1. `patch.diff` — `git -C /tmp/seed/{pid} diff` of your change (source only; no build outputs).
-2. A demonstration that FAILS with your change and PASSES without it: a small Ferret program/project plus a shell script `demo.sh` (takes the worktree path as $1, exits 0 when the property holds and 1 when it is violated), or a Go/C test file. Run it both ways yourself (use `git stash` / `git stash pop` or `git apply -R`) and record the two outputs.
+2. A demonstration that FAILS with your change and PASSES without it: a small Ferret program/project plus a shell script `demo.sh` (takes the worktree path as $1, exits 0 when the property holds and 1 when it is violated), or a Go/C test file. Run it both ways yourself (use `git diff > p.diff; git apply -R p.diff; ...; git apply p.diff` — do NOT use `git stash`: the stash is shared between worktrees and other agents are working concurrently) and record the two outputs.
 3. `notes.md` — what the change is, why it breaks the property, exactly what is needed for it to manifest, and the commands you ran (including the passing test-suite run with the change applied).
 Before you finish: leave the worktree with your change applied (uncommitted), delete large build outputs you created inside the worktree (binaries, gen/ directories), and reply with a short summary (the files you wrote, what manifests the bug).""")
